@@ -38,11 +38,18 @@ PH = re.compile(r"(?<!%)%\(([\w-]+\??)\)s")  # a variable name may hold hyphens,
 WSRUN = re.compile(r"\s+")
 
 
-def env():
+def env(undefined: str = "default"):
     global _env
+    if undefined != "default":
+        if undefined not in _und_envs:
+            _und_envs[undefined] = drv.make_env({"extra": True, "undefined": undefined})
+        return _und_envs[undefined]
     if _env is None:
         _env = drv.make_env({"extra": True})
     return _env
+
+
+_und_envs: dict[str, Any] = {}
 
 
 def _txt(v: Any) -> str:
@@ -73,7 +80,7 @@ def classify(msg: str) -> str:
 
 
 def judge(ctx: core.Ctx, case: dict[str, Any]) -> None:
-    e = env()
+    e = env(case.get("undefined", "default"))
     k = case["kind"]
     msg = case["msg"]
     vars_ = dict(case.get("vars") or {})
@@ -189,7 +196,35 @@ TAG_TOKENS = ["Hello", " ", "%", "%%", "%s", "%(you)s", "(", ")", "\n  ", "<b>",
 COUNTS: list[Any] = [-1, 0, 1, 2, 5, "2", 1.0, None]
 
 
+def defined_nil_cases():
+    """A message variable that is *given* and is nil, under every undefined type: it is a value (it prints as nothing), not a missing name,
+    so the message comes out whole whatever the environment does about missing names."""
+    i = 0
+    for und in ("default", "strict", "strict_default", "falsy_strict", "debug"):
+        for msg in ("100% for %(you)s, (50% off)", "%(you)s", "Hello %(you)s and %(n)s!", "%%(you)s %(you)s"):
+            for f in ("t", "gettext", "ngettext", "pgettext", "npgettext"):
+                for nil_literal in (False, True):
+                    i += 1
+                    c: dict[str, Any] = {"kind": "filter", "filter": f, "msg": msg, "literal": bool(i % 2), "async": i % 3 == 0, "vars": {"you": None, "n": 3}, "nil_literal": nil_literal, "undefined": und, "outer": i % 4 == 0}
+                    if f in ("ngettext", "npgettext"):
+                        c["plural"], c["count"] = "many %(you)s", V.enc(1 + i % 2)
+                    if f in ("pgettext", "npgettext"):
+                        c["context"] = "ctx"
+                    yield c
+        for body in ("100% for {{ you }}, (50% off)", "{{ you }}", "Hello {{ you }} and {{ n }}!"):
+            for nil_literal in (False, True):
+                for plural in (None, "many {{ you }}"):
+                    i += 1
+                    c = {"kind": "tag", "msg": body, "body": body, "async": i % 3 == 0, "vars": {"you": None, "n": 3}, "nil_literal": nil_literal, "undefined": und, "outer": i % 4 == 0}
+                    if plural:
+                        c["plural_body"], c["count"] = plural, V.enc(1 + i % 2)
+                    yield c
+
+
 def cases(ctx: core.Ctx):
+    for gi, c in enumerate(defined_nil_cases()):
+        if gi % ctx.nshards == ctx.shard:
+            yield c
     rng = ctx.rng("cases")
     L = 3 if ctx.tier == "quick" else 4
     idx = 0
